@@ -38,6 +38,28 @@ Definition tmp_name (r : bytes) : name := tmpChunkPrefix_bytes ++ r.
 Definition chunk_file_id (unc : bool) (pstr : bytes) (nm : name) : option id :=
   if has_suffix pstr (ext_of unc) then unhex_id (trim_suffix nm (ext_of unc)) else None.
 
+(* httphandler.go: HTTPHandler.idFromPath, as the rule it implements (path.Base / path.Join are the
+   identity on the shapes that pass): the request path must be "/" ++ first four characters of the name ++
+   "/" ++ name ++ the extension of the SERVER's format, the name being 64 hex digits.  compressed = the
+   handler's converters contain compression. *)
+Definition http_id_from_path (compressed : bool) (p : bytes) : option id :=
+  let ext := ext_of (negb compressed) in
+  match p with
+  | s :: rest =>
+      if N.eqb s slash && (4 <=? length rest) then
+        match skipn 4 rest with
+        | s2 :: nm =>
+            if N.eqb s2 slash && has_suffix nm ext
+               && negb (negb compressed && has_suffix p CompressedChunkExt_bytes) then
+              let sid := trim_suffix nm ext in
+              if bytes_eqb (firstn 4 sid) (firstn 4 rest) then unhex_id sid else None
+            else None
+        | [] => None
+        end
+      else None
+  | [] => None
+  end.
+
 (* lstat/open outcome at a path: the entry, or the errno of the walk down *)
 Definition probe (p : path) (s : node) : res ent :=
   match resolve p s with Ok n => Ok (ent_of n) | Err e => Err e end.
